@@ -255,7 +255,18 @@ fn run_row(case: &Value) -> Vec<(String, Value, Value)> {
             diffs.push(("thumbprint_ignores_public_member".into(), json!("differs after the public member changed"), json!(before)));
           }
         }
-        Err(e) => diffs.push(("changed_key_not_serialisable".into(), json!("round trips"), json!(e.to_string()))),
+        // a deserialiser may refuse keys it used to take (the property speaks about keys that ARE obtained): compare with a
+        // key freshly built from the same parameters instead, and note the refusal as drift
+        Err(e) => {
+          let f = Jwk::from_params(changed.params().clone());
+          if f.thumbprint_sha256_b64() != changed.thumbprint_sha256_b64() {
+            diffs.push(("thumbprint_stale_after_change".into(), json!(f.thumbprint_sha256_b64()), json!(changed.thumbprint_sha256_b64())));
+          }
+          if carried_family(&j) != "oct" && changed.thumbprint_sha256_b64() == before {
+            diffs.push(("thumbprint_ignores_public_member".into(), json!("differs after the public member changed"), json!(before)));
+          }
+          diffs.push(("~changed_key_refused_by_the_deserialiser".into(), json!("round trips"), json!(e.to_string())));
+        }
       }
     }
     if let Ok(back) = Jwk::from_json_value(serde_json::to_value(&j).unwrap()) {
